@@ -292,6 +292,8 @@ def classify(prog, what):
     """Stable trigger string of an oracle failure, decidable on the input."""
     if any(any(ord(ch) > 127 for ch in c["name"]) for c in prog["classes"]) and what in ("marker", "inline", "media", "fragment"):
         return "c04-nonascii-classname"
+    if what in ("media", "fragment") and any(isinstance(f, list) and re.search(r'[\w-](src|href)="', f[1]) for c in prog["classes"] for f in c["mjs"]):
+        return "c04-media-url-attr-name"
     if what == "placeholder" and U.has_node({"page": [], "classes": prog["classes"]}, ("jsdep", "cssdep")):
         return "c04-placeholder-multi-id"
     return "c04-e2e-" + what
@@ -601,29 +603,53 @@ def run(tier, seed):
     eval_all(chk, batches)
     lap("coq-eval")
     chk.extra["phase_wall_s"] = phase
+    chk.extra["cases_evaluated_in_coq"] = {b[0]: len(b[3]) for b in batches}
+    chk.extra["programs"] = {"exhaustive_small": n + 1, "random": nrand}
     del keep
     chk.assumptions = [
-        "the page's visible text identifies component instances ([[i]] written by each generated template); 'first appearance in the document' is read from it",
+        "the page's visible text identifies component instances ([[i]] written by each generated template, [[D]] in front of each {% component \"dynamic\" %} tag); "
+        "'first appearance in the document' is read from it",
+        "EMIT SIDE (not proved, tested on every generated page): the content handed to render_dependencies is text, marker, ..., text with exactly one marker per rendered "
+        "component instance, written by one call of insert_component_dependencies_comment (class hash, render id, input hashes) in front of that instance's HTML; the harness "
+        "wraps that function, compares the recorded calls with the visible instances, cuts the content at the recorded markers and evaluates check_page inside Coq "
+        "(theorem rendered_page_hypotheses_checked: a true result establishes the hypotheses of harvest_emit_roundtrip / final_html_counts for that page)",
         "document mode inserts at a {% component_*_dependencies %} placeholder, else before </body> (JS) / </head> (CSS); with neither, nothing is inserted (documented); "
         "with k placeholders of a kind everything is inserted k times (documented) - the oracle expects exactly k copies, k computed from the page source",
         "class names are Python identifiers (any Unicode letters); names that are not identifiers (type('a b', ...)) are outside the statement",
         "component js/css and page text contain no marker / placeholder look-alikes ('_RENDERED', '_PLACEHOLDER')",
         "the component media cache still holds the scripts when render_dependencies runs (no eviction between render and post-processing)",
-        "Media composition per class (inheritance, extend) is taken from comp_cls().media (property C16); Django's Media.render_js/render_css/merge are trusted",
+        "which files a class delivers: its own Media plus the Media of the classes Media.extend selects (absent/True: all bases, False: none, list: those classes) - the direct oracle "
+        "computes this set from the generated program; the model reads the per-class tag lists from comp_cls().media (their composition is property C16); Django's "
+        "Media.render_js/render_css/merge are trusted",
+        "a Media entry without any URL (SafeString tag without src/href) makes render_dependencies raise an explanatory RuntimeError: not a 'file from the Media', outside the "
+        "statement; modelled as ErrMissingUrl, counted under pipeline:*:missingurl, no alarm",
+        "DynamicComponent.render() called from Python post-processes twice (inner root render, then itself): component JS/CSS/Media are still delivered once, the core manager "
+        "script may be written twice and inserted tags carry the dynamic component's data-djc-id attribute (stripped before the oracle on that path); the statement is silent "
+        "about the core script: recorded under coverage.observations, no alarm",
     ]
     return chk.finish(
-        rule="matchers: skeleton mutations + token sequences + seeded random byte strings for the three regexes; pipeline: every sequence of <=3 markers over a 7-class zoo "
-             "(sampled at 3 distinct), input-hash / whitespace / malformed / unknown-class / URL-less-tag / placeholder variants, seeded random piece sequences, both types; "
-             "end to end: exhaustive small pages over 3 two-class libraries (<=3 uses from 6 atoms) + %d seeded random programs (1-4 classes, nesting, loops, slots, "
-             "inheritance, shared Media files, dict css, non-ASCII names, placeholders in pages and in component roots, 7 shells) x document/fragment x 4 rendering paths. "
+        rule="matchers: skeleton mutations + token sequences + seeded random byte strings for the three regexes; pipeline: every sequence of <=3 markers over an 8-class zoo "
+             "(sampled at 3 distinct), input-hash / whitespace / malformed / unknown-class / URL-less-tag / placeholder / end-tag-text-inside-the-inserted-blocks variants, seeded "
+             "random piece sequences, both types; end to end: exhaustive small pages over 5 class libraries (two-class libraries with <=3 uses from 6 atoms; named slots + named "
+             "fills + dynamic component + unused class with <=2 uses from 8 atoms; inheritance chain with Media.extend False/[list], two bases, shared files with <=2 uses of 6 "
+             "classes) + %d seeded random programs (1-5 classes, some never rendered; nesting, loops incl. 0 iterations, default and named slots (also in loops), implicit and "
+             "named fills (also under if), the dynamic component by name and by class, inheritance chains, two bases, Media.extend False/[list], shared Media files, dict css "
+             "with one file under several media types, SafeString tags, ASCII / '_'-heavy / digit / non-ASCII class names, placeholders in pages and in component roots, "
+             "7 shells with/without <head>/<body>) x document/fragment x 6 rendering paths (template+render_dependencies, middleware, Component.render, "
+             "Component.render(render_dependencies=False)+render_dependencies, Component.render(slots=prerendered HTML), DynamicComponent.render). "
+             "Every render goes through the direct oracle; a deterministic part of them additionally through the model inside Coq (coverage.cases_evaluated_in_coq). "
              "Non-trivial = a class rendered more than once next to another class (e2e) / >=2 delivered assets or a repeated class (pipeline) / >=1 match with residue (matchers). "
              "Distinct = distinct (input, type, path)." % nrand,
         explanation="Theorems of Props/C04.v re-checked by coqc (matchers anchored to the regex pattern strings generated from /repo); the model is evaluated by vm_compute inside "
-                    "Coq on every case: re.sub/match results, _process_dep_declarations tokens, final bytes of render_dependencies, and the marker sequence of rendered pages; "
-                    "independent direct oracle on the final HTML (inline JS/CSS once in first-appearance order, Media files once, nothing from unrendered classes, "
-                    "fragment declares the same set, no marker/placeholder left).",
-        extra_trusted=["modelled, not verified: Python re (three hand matchers, differentially tested every run), Django Media.render_js/render_css/merge and static(), "
-                       "djc_core_html_parser (adds data-djc-id attributes), json/base64 of the loader script (decoded by the harness), the component media cache",
+                    "Coq: re.sub/match results, _process_dep_declarations tokens, final bytes of render_dependencies (masked end-tag search included), and for rendered pages "
+                    "check_page = hypotheses of the theorems (content = text/marker/.../text of the recorded calls, clean text, well-formed records; marker-free text = "
+                    "text/placeholder/.../text) + model process + model assemble; independent direct oracle on the final HTML (inline JS/CSS once in first-appearance order, "
+                    "Media files once incl. inherited per Media.extend, nothing from unrendered classes, fragment declares the same set, no marker/placeholder left) and on its "
+                    "raw bytes (every inline script/style string and every Media URL attribute occurs copies(k) times - the quantity of theorem final_html_counts).",
+        extra_trusted=["modelled, not verified: Python re (three hand matchers + the end-tag matcher, differentially tested every run), Django Media.render_js/render_css/merge and "
+                       "static(), djc_core_html_parser (adds data-djc-id attributes), json/base64 of the loader script (decoded by the harness), the component media cache; "
+                       "the serialisation of tags to bytes is a parameter `ser` of theorem final_html_counts (hypothesis: every tag starts with '<' and no occurrence of the "
+                       "counted string runs out of a tag)",
                        "harness/gen_c04.py (prints the regex pattern strings as Coq literals)"])
 
 
